@@ -98,10 +98,15 @@ type cmd struct {
 }
 
 type registry struct {
-	mu   sync.Mutex
-	h    map[uint32]chan cmd
-	read map[uint32]int // bytes the handlers got from their request bodies since the last event
+	mu      sync.Mutex
+	h       map[uint32]chan cmd
+	read    map[uint32]int  // bytes the handlers got from their request bodies since the last event
+	corrupt map[uint32]bool // streams whose handler read bytes that are not the ones the client sent
 }
+
+// every request body and every response body carries a position dependent pattern, checked by the other side
+func patIn(id uint32, o int) byte  { return byte(int(id)*31 + o*7 + (o>>8)*3 + 13) }
+func patOut(id uint32, o int) byte { return byte(int(id)*17 + o*5 + (o>>8)*11 + 1) }
 
 var reg *registry
 
@@ -118,14 +123,25 @@ func handler(w http.ResponseWriter, r *http.Request) {
 		myReg.mu.Unlock()
 	}()
 	buf := make([]byte, 1<<17)
+	roff, woff := 0, 0
 	for c := range ch {
 		switch c.kind {
 		case 'r':
 			// io.ReadFull, with every partial read accounted for as soon as it returns
 			for rem := c.n; rem > 0; {
 				n, err := r.Body.Read(buf[:rem])
+				bad := false
+				for i := 0; i < n; i++ {
+					if buf[i] != patIn(id, roff+i) {
+						bad = true
+					}
+				}
+				roff += n
 				myReg.mu.Lock()
 				myReg.read[id] += n
+				if bad {
+					myReg.corrupt[id] = true
+				}
 				myReg.mu.Unlock()
 				rem -= n
 				if err != nil {
@@ -133,6 +149,10 @@ func handler(w http.ResponseWriter, r *http.Request) {
 				}
 			}
 		case 'w':
+			for i := 0; i < c.n; i++ {
+				buf[i] = patOut(id, woff+i)
+			}
+			woff += c.n
 			w.Write(buf[:c.n])
 			w.(http.Flusher).Flush()
 		case 'f':
@@ -142,9 +162,11 @@ func handler(w http.ResponseWriter, r *http.Request) {
 }
 
 type clientView struct {
-	mu     sync.Mutex
-	frames []spdy.Frame
-	closed bool
+	mu      sync.Mutex
+	frames  []spdy.Frame
+	closed  bool
+	roff    map[uint32]int
+	corrupt map[uint32]bool // streams on which the client received response bytes the handler did not write
 }
 
 func atoi(s string) (uint32, bool) {
@@ -219,15 +241,48 @@ func render(fs []spdy.Frame, reads map[uint32]int) string {
 	return "[" + strings.Join(out, ",") + "]"
 }
 
+// segWriter hands the client's frames to the connection in pieces of n bytes (n = 0: as written)
+type segWriter struct {
+	c net.Conn
+	n int
+}
+
+func (w *segWriter) Write(p []byte) (int, error) {
+	if w.n <= 0 {
+		return w.c.Write(p)
+	}
+	done := 0
+	for done < len(p) {
+		k := w.n
+		if k > len(p)-done {
+			k = len(p) - done
+		}
+		m, err := w.c.Write(p[done : done+k])
+		done += m
+		if err != nil {
+			return done, err
+		}
+	}
+	return done, nil
+}
+
 func execSv(toks []string) string {
 	if len(toks) < 1 {
 		return "bad-op"
 	}
-	maxS, ok := atoi(toks[0])
-	if !ok || maxS == 0 {
+	// "<MaxConcurrentStreams>[:<k>]": with :k the client's bytes reach the server in writes of k bytes
+	advSeg := strings.Split(toks[0], ":")
+	maxS, ok := atoi(advSeg[0])
+	if !ok || maxS == 0 || len(advSeg) > 2 {
 		return "bad-op"
 	}
-	reg = &registry{h: map[uint32]chan cmd{}, read: map[uint32]int{}}
+	segN := uint32(0)
+	if len(advSeg) == 2 {
+		if segN, ok = atoi(advSeg[1]); !ok || segN == 0 {
+			return "bad-op"
+		}
+	}
+	reg = &registry{h: map[uint32]chan cmd{}, read: map[uint32]int{}, corrupt: map[uint32]bool{}}
 	myReg := reg
 	var panicMu sync.Mutex
 	panicMsg := ""
@@ -241,11 +296,11 @@ func execSv(toks []string) string {
 	cc, sc := net.Pipe()
 	done, graceCh := spdy.VerifC40ServeGraceful(sc, http.HandlerFunc(handler), maxS)
 	graceDone := false
-	fr, err := spdy.NewFramer(cc, cc)
+	fr, err := spdy.NewFramer(&segWriter{cc, int(segN)}, cc)
 	if err != nil {
 		return "newframer-failed"
 	}
-	cv := &clientView{}
+	cv := &clientView{roff: map[uint32]int{}, corrupt: map[uint32]bool{}}
 	go func() {
 		for {
 			f, err := fr.ReadFrame()
@@ -254,6 +309,15 @@ func execSv(toks []string) string {
 				cv.closed = true
 				cv.mu.Unlock()
 				return
+			}
+			if d, ok := f.(*spdy.DataFrame); ok {
+				id := uint32(d.StreamId)
+				for i, b := range d.Data {
+					if b != patOut(id, cv.roff[id]+i) {
+						cv.corrupt[id] = true
+					}
+				}
+				cv.roff[id] += len(d.Data)
 			}
 			cv.frames = append(cv.frames, f)
 			cv.mu.Unlock()
@@ -287,91 +351,101 @@ func execSv(toks []string) string {
 		return "no-initial-settings"
 	}
 	var out []string
-	for _, ev := range toks[1:] {
-		if len(ev) < 2 {
-			return "bad-op"
-		}
-		a := strings.Split(ev[1:], ",")
-		n := make([]uint32, len(a))
-		for i := range a {
-			v, ok := atoi(a[i])
-			if !ok {
+	sent := map[uint32]int{} // request body bytes sent per stream (position of the pattern)
+	for _, group := range toks[1:] {
+		// a group `a+b+c` is a BURST: the frames are written back to back, quiescence is awaited once
+		for _, ev := range strings.Split(group, "+") {
+			if len(ev) < 2 {
 				return "bad-op"
 			}
-			n[i] = v
-		}
-		var f spdy.Frame
-		switch {
-		case ev[0] == 'S' && (len(n) == 2 || len(n) == 4):
-			// S id,fin[,method,cl]  method 0 POST 1 GET 2 HEAD (default: POST, GET with FIN);
-			// cl 0 = no Content-Length, 1 = "abc", 2 = "-5", k+10 = the number k
-			s := &spdy.SynStreamFrame{StreamId: spdy.StreamId(n[0]), Headers: http.Header{}}
-			meth := "POST"
-			if n[1] != 0 {
-				meth = "GET"
-				s.CFHeader.Flags = spdy.ControlFlagFin
-			}
-			if len(n) == 4 {
-				if n[2] > 2 {
+			a := strings.Split(ev[1:], ",")
+			n := make([]uint32, len(a))
+			for i := range a {
+				v, ok := atoi(a[i])
+				if !ok {
 					return "bad-op"
 				}
-				meth = []string{"POST", "GET", "HEAD"}[n[2]]
-				switch {
-				case n[3] == 1:
-					s.Headers.Set("content-length", "abc")
-				case n[3] == 2:
-					s.Headers.Set("content-length", "-5")
-				case n[3] >= 10:
-					s.Headers.Set("content-length", strconv.Itoa(int(n[3]-10)))
-				case n[3] != 0:
-					return "bad-op"
+				n[i] = v
+			}
+			var f spdy.Frame
+			switch {
+			case ev[0] == 'S' && (len(n) == 2 || len(n) == 4):
+				// S id,fin[,method,cl]  method 0 POST 1 GET 2 HEAD (default: POST, GET with FIN);
+				// cl 0 = no Content-Length, 1 = "abc", 2 = "-5", k+10 = the number k
+				s := &spdy.SynStreamFrame{StreamId: spdy.StreamId(n[0]), Headers: http.Header{}}
+				meth := "POST"
+				if n[1] != 0 {
+					meth = "GET"
+					s.CFHeader.Flags = spdy.ControlFlagFin
 				}
+				if len(n) == 4 {
+					if n[2] > 2 {
+						return "bad-op"
+					}
+					meth = []string{"POST", "GET", "HEAD"}[n[2]]
+					switch {
+					case n[3] == 1:
+						s.Headers.Set("content-length", "abc")
+					case n[3] == 2:
+						s.Headers.Set("content-length", "-5")
+					case n[3] >= 10:
+						s.Headers.Set("content-length", strconv.Itoa(int(n[3]-10)))
+					case n[3] != 0:
+						return "bad-op"
+					}
+				}
+				s.Headers.Set(":method", meth)
+				s.Headers.Set(":path", "/")
+				s.Headers.Set(":version", "HTTP/1.1")
+				s.Headers.Set(":host", "spdy.bfe.com")
+				s.Headers.Set(":scheme", "https")
+				f = s
+			case ev[0] == 'D' && len(n) == 3 && n[1] <= 1<<20:
+				d := &spdy.DataFrame{StreamId: spdy.StreamId(n[0]), Data: make([]byte, n[1])}
+				for i := range d.Data {
+					d.Data[i] = patIn(n[0], sent[n[0]]+i)
+				}
+				if n[0] != 0 {
+					sent[n[0]] += int(n[1])
+				}
+				if n[2] != 0 {
+					d.Flags = spdy.DataFlagFin
+				}
+				f = d
+			case ev[0] == 'W' && len(n) == 2:
+				f = &spdy.WindowUpdateFrame{StreamId: spdy.StreamId(n[0]), DeltaWindowSize: n[1]}
+			case ev[0] == 'R' && len(n) == 2 && n[1] != 0:
+				f = &spdy.RstStreamFrame{StreamId: spdy.StreamId(n[0]), Status: spdy.RstStreamStatus(n[1])}
+			case ev[0] == 'I' && len(n) == 1:
+				f = &spdy.SettingsFrame{FlagIdValues: []spdy.SettingsFlagIdValue{{Id: spdy.SettingsInitialWindowSize, Value: n[0]}}}
+			case ev[0] == 'P' && len(n) == 1:
+				f = &spdy.PingFrame{Id: n[0]}
+			case (ev[0] == 'r' || ev[0] == 'w') && len(n) == 2 && n[1] <= 1<<17:
+				myReg.mu.Lock()
+				if ch, ok := myReg.h[n[0]]; ok {
+					ch <- cmd{ev[0], int(n[1])}
+				}
+				myReg.mu.Unlock()
+			case ev[0] == 'G' && len(n) == 1:
+				// graceful shutdown of the server (bfe closes http.Server.CloseNotifyCh): once per connection
+				if !graceDone {
+					graceDone = true
+					close(graceCh)
+				}
+			case ev[0] == 'f' && len(n) == 1:
+				myReg.mu.Lock()
+				if ch, ok := myReg.h[n[0]]; ok {
+					ch <- cmd{'f', 0}
+				}
+				myReg.mu.Unlock()
+			default:
+				return "bad-op"
 			}
-			s.Headers.Set(":method", meth)
-			s.Headers.Set(":path", "/")
-			s.Headers.Set(":version", "HTTP/1.1")
-			s.Headers.Set(":host", "spdy.bfe.com")
-			s.Headers.Set(":scheme", "https")
-			f = s
-		case ev[0] == 'D' && len(n) == 3 && n[1] <= 1<<20:
-			d := &spdy.DataFrame{StreamId: spdy.StreamId(n[0]), Data: make([]byte, n[1])}
-			if n[2] != 0 {
-				d.Flags = spdy.DataFlagFin
+			if f != nil {
+				// frames the client-side writer itself refuses (stream id 0 ...) are not sent: the event is a no-op
+				cc.SetWriteDeadline(time.Now().Add(30 * time.Second))
+				fr.WriteFrame(f)
 			}
-			f = d
-		case ev[0] == 'W' && len(n) == 2:
-			f = &spdy.WindowUpdateFrame{StreamId: spdy.StreamId(n[0]), DeltaWindowSize: n[1]}
-		case ev[0] == 'R' && len(n) == 2 && n[1] != 0:
-			f = &spdy.RstStreamFrame{StreamId: spdy.StreamId(n[0]), Status: spdy.RstStreamStatus(n[1])}
-		case ev[0] == 'I' && len(n) == 1:
-			f = &spdy.SettingsFrame{FlagIdValues: []spdy.SettingsFlagIdValue{{Id: spdy.SettingsInitialWindowSize, Value: n[0]}}}
-		case ev[0] == 'P' && len(n) == 1:
-			f = &spdy.PingFrame{Id: n[0]}
-		case (ev[0] == 'r' || ev[0] == 'w') && len(n) == 2 && n[1] <= 1<<17:
-			myReg.mu.Lock()
-			if ch, ok := myReg.h[n[0]]; ok {
-				ch <- cmd{ev[0], int(n[1])}
-			}
-			myReg.mu.Unlock()
-		case ev[0] == 'G' && len(n) == 1:
-			// graceful shutdown of the server (bfe closes http.Server.CloseNotifyCh): once per connection
-			if !graceDone {
-				graceDone = true
-				close(graceCh)
-			}
-		case ev[0] == 'f' && len(n) == 1:
-			myReg.mu.Lock()
-			if ch, ok := myReg.h[n[0]]; ok {
-				ch <- cmd{'f', 0}
-			}
-			myReg.mu.Unlock()
-		default:
-			return "bad-op"
-		}
-		if f != nil {
-			// frames the client-side writer itself refuses (stream id 0 ...) are not sent: the event is a no-op
-			cc.SetWriteDeadline(time.Now().Add(10 * time.Second))
-			fr.WriteFrame(f)
 		}
 		if h := quiesce(); h != "" {
 			return strings.Join(out, " ") + " " + h
@@ -384,8 +458,24 @@ func execSv(toks []string) string {
 		myReg.mu.Lock()
 		reads := myReg.read
 		myReg.read = map[uint32]int{}
+		var bad []string
+		for id := range myReg.corrupt {
+			bad = append(bad, fmt.Sprintf("corrupt(%d)", id))
+		}
+		myReg.corrupt = map[uint32]bool{}
 		myReg.mu.Unlock()
+		cv.mu.Lock()
+		for id := range cv.corrupt {
+			bad = append(bad, fmt.Sprintf("corruptout(%d)", id))
+		}
+		cv.corrupt = map[uint32]bool{}
+		cv.mu.Unlock()
+		sort.Strings(bad)
 		out = append(out, render(got, reads))
+		if len(bad) > 0 {
+			out = append(out, strings.Join(bad, ","))
+			break
+		}
 		panicMu.Lock()
 		pm := panicMsg
 		panicMu.Unlock()
@@ -468,7 +558,7 @@ func gen(r *vh.Rand) string {
 		return fmt.Sprintf("ft %d %d %d", i32(r), i32(r), i32(r))
 	}
 	if r.Chance(1, 5) {
-		return genUpload(r)
+		return harden(r, genUpload(r))
 	}
 	maxS := r.Range(1, 4)
 	n := r.Range(1, 12)
@@ -536,6 +626,30 @@ func gen(r *vh.Rand) string {
 				p = append(p, fmt.Sprintf("f%d", pickID()))
 			}
 		}
+	}
+	return harden(r, strings.Join(p, " "))
+}
+
+// harden: some scripts get their client bytes delivered in small writes ("adv:k"), some get neighbouring events
+// merged into bursts ("a+b+c": written back to back, compared once everything is quiet)
+func harden(r *vh.Rand, op string) string {
+	p := strings.Split(op, " ")
+	if len(p) < 3 {
+		return op
+	}
+	if r.Chance(1, 5) {
+		p[1] += fmt.Sprintf(":%d", pick(r, 1, 2, 5, 9, 1000))
+	}
+	if r.Chance(1, 3) {
+		q := p[:3:3]
+		for _, e := range p[3:] {
+			if r.Chance(1, 3) {
+				q[len(q)-1] += "+" + e
+			} else {
+				q = append(q, e)
+			}
+		}
+		p = q
 	}
 	return strings.Join(p, " ")
 }
